@@ -2,7 +2,11 @@
 
 History = list of operations on a Durq / Dusq held in a Hold whose Subery (LMDB) lives in
 a sandbox directory.  Model: a list (Durq: deque semantics, duplicates kept; Dusq: insertion
-ordered set).  After every operation
+ordered set where "already a member" is Python equality, as in any Python set: Bag(value=1), Bag(value=1.0) and
+Bag(value=True) are one member, the first one offered stays).  The value domain holds such equal but differently
+serialised twins next to the plain values.  Values are compared with == everywhere (which of two equal objects is kept
+is not judged).  extend / update are now and then handed their values as a one-shot iterator (they are documented to
+take a NonStringIterable).  After every operation
   * list(q) equals the model;
   * the durable copy sdb.get(key) holds the same values in the same order;
   * the return value equals the documented one;
@@ -26,13 +30,16 @@ assert_in_tree(during, durqing, dusqing, holding)
 
 PID = "C23"
 RULE = ("cases: Durq or Dusq, optionally constructed with values (duplicates included) before it is attached to the store, optional further values after attaching, <= 30 operations from push / pull / pull(emptive=False) / extend or "
-        "update / remove (Dusq) / clear / count / push(None) / sync(force=True) over a 5 value domain of registered data objects (mutable and "
-        "frozen, duplicates frequent), with 'reopen' (close store, reopen same directory, fresh object injected and synced) "
+        "update (argument a list, one time in four a one-shot iterator over the same values) / remove (Dusq) / clear / count / push(None) / "
+        "sync(force=True) over a 5 value domain of registered data objects (mutable and frozen, duplicates frequent) plus 4 twins "
+        "that are equal in Python to one of them but serialise differently (1 / 1.0 / True, 0 / False, 3 / 3.0; one value draw in three), with 'reopen' (close store, reopen same directory, fresh object injected and synced) "
         "and 'snapshot' (copy of the live LMDB directory opened and compared) between any two operations; non-trivial = a "
         "reopen or snapshot happens after a pull that followed a duplicate push; distinct = canonical hash")
 ASSUMPTIONS = [
     "values are registered RegDom / IceRegDom instances (Bag, IceBag), the only kind the queues accept",
     "the store is a persistent (temp=False) Subery in a per-process sandbox under /verif/.work, filesystem calls guarded by vlib/fsbox",
+    "membership in a Dusq is Python equality of the data objects (== / hash, what its in-memory ordered set uses); all comparisons with the model use ==, which of two equal objects is retained is not judged",
+    "a one-shot iterator is a legitimate argument of extend / update (annotated and documented NonStringIterable, which the constructors test with isinstance)",
     "a 'snapshot' is a plain file copy of data.mdb / lock.mdb taken between operations (every operation commits its own LMDB transaction)",
 ]
 
@@ -42,9 +49,22 @@ KEY = "queue"
 OTHER = "zother"
 
 
+# 5..8: objects that are EQUAL in Python (== and hash) to one of 0..3 but are written differently to the store
+# (1 / 1.0 / True, 0 / False, 3 / 3.0): for the set they are duplicates of that member, for the queue one more entry
+TWINS = {5: ("bag", 1.0), 6: ("bag", True), 7: ("ice", 3.0), 8: ("bag", False)}
+
+
 def val(i):
-    """0..4 -> data object (0-2 mutable Bag, 3-4 frozen IceBag)"""
+    """0..4 -> data object (0-2 mutable Bag, 3-4 frozen IceBag); 5..8 -> equal twin of 1, 1, 3, 0 (see TWINS)"""
+    if i in TWINS:
+        k, x = TWINS[i]
+        return bagging.Bag(value=x) if k == "bag" else bagging.IceBag(value=x)
     return bagging.Bag(value=i) if i < 3 else bagging.IceBag(value=i)
+
+
+def _twin_of_member(v, model):
+    """v is equal to a member of model that is a different object kind-wise (other type of .value)"""
+    return any(m == v and type(m.value) is not type(v.value) for m in model)
 
 
 class Rig:
@@ -94,6 +114,8 @@ def run_case(case):
                 model.append(v)
     rig = Rig(kind, pre=pre)
     dup_pushed = False
+    twin_offered = False       # a value equal to a present member but serialised differently was offered
+    oneshot = False            # extend / update was handed a one-shot iterator instead of a list
     pulled_after_dup = False
     reopen_after = False
 
@@ -136,6 +158,7 @@ def run_case(case):
                 v = val(op[1])
                 if v in model:
                     dup_pushed = True
+                    twin_offered = twin_offered or _twin_of_member(v, model)
                 if not dusq or v not in model:
                     model.append(v)
                 exp, got = True, rig.q.push(v)
@@ -157,26 +180,36 @@ def run_case(case):
                         got = "IndexError"
             elif k == "many":
                 vs = [val(i) for i in op[1]]
+                arg = vs
+                if len(op) > 2 and op[2] == "iter":
+                    # the same values handed over as a one-shot iterator (what `q.extend(x for x in ...)` passes):
+                    # extend / update are documented to take a NonStringIterable, which an iterator is
+                    arg = iter(vs)
+                    oneshot = True
+                    tag = "many-iter"
                 if dusq:
                     before = len(model)
                     for v in vs:
                         if v in model:
                             dup_pushed = True
+                            twin_offered = twin_offered or _twin_of_member(v, model)
                         else:
                             model.append(v)
-                    exp, got = len(model) > before, rig.q.update(vs)
+                    exp, got = len(model) > before, rig.q.update(arg)
                 else:
-                    if any(v in model for v in vs) or len(set(op[1])) < len(op[1]):
+                    if any(v in model for v in vs) or any(v in vs[:j] for j, v in enumerate(vs)):
                         dup_pushed = True
+                    twin_offered = twin_offered or any(_twin_of_member(v, model + vs[:j]) for j, v in enumerate(vs))
                     model.extend(vs)
-                    exp, got = bool(vs), rig.q.extend(vs)
+                    exp, got = bool(vs), rig.q.extend(arg)
             elif k == "remove":
                 if not dusq:
                     continue
                 v = val(op[1])
                 exp = v in model
                 if exp:
-                    model.remove(v)
+                    twin_offered = twin_offered or _twin_of_member(v, model)
+                    model.remove(v)        # the member equal to v, as list.remove / set.remove do
                 got = rig.q.remove(v)
             elif k == "clear":
                 exp = bool(model)
@@ -237,6 +270,10 @@ def run_case(case):
         r.labels.append("preloaded-before-attach")
     if dup_pushed:
         r.labels.append("duplicate-pushed")
+    if twin_offered:
+        r.labels.append("equal-but-differently-serialised-value-offered")
+    if oneshot:
+        r.labels.append("one-shot-iterator-argument")
     if reopen_after:
         r.labels.append("reopen/snapshot-after-pull-after-dup")
     if any(op[0] == "reopen" for op in case["ops"]):
@@ -246,33 +283,46 @@ def run_case(case):
     return r
 
 
+def _values():
+    """(plain, any): indices 0..3, and the same with the equal twins 5..8 mixed in (one draw in three)"""
+    plain = st.integers(0, 3)
+    return plain, st.one_of(plain, plain, st.sampled_from(sorted(TWINS)))
+
+
+def _many(v):
+    """extend / update with a list, now and then with the same values as a one-shot iterator"""
+    vs = st.lists(v, max_size=4)
+    return st.one_of(st.tuples(st.just("many"), vs), st.tuples(st.just("many"), vs), st.tuples(st.just("many"), vs),
+                     st.tuples(st.just("many"), vs, st.just("iter")))
+
+
 def _strategy(avoid_remove=False):
-    v = st.integers(0, 3)
+    plain, v = _values()
     ops = [st.tuples(st.just("push"), v), st.tuples(st.just("push"), v), st.tuples(st.just("push"), v),
            st.tuples(st.just("pull")), st.tuples(st.just("pull")), st.tuples(st.just("pull_ne")),
-           st.tuples(st.just("many"), st.lists(v, max_size=4)), st.tuples(st.just("clear")),
+           _many(v), st.tuples(st.just("clear")),
            st.tuples(st.just("count"), v), st.tuples(st.just("push_none")),
            st.tuples(st.just("reopen")), st.tuples(st.just("reopen")), st.tuples(st.just("snapshot")),
            st.tuples(st.just("resync"))]
     if not avoid_remove:
         ops.append(st.tuples(st.just("remove"), v))
     op = st.one_of(*ops).map(list)
-    plain = st.lists(op, min_size=1, max_size=30)
+    hist = st.lists(op, min_size=1, max_size=30)
     # histories that start with a duplicate push and a pull and contain a reopen / snapshot later on
     seeded = st.tuples(v, st.lists(op, max_size=4), st.lists(op, max_size=6),
                        st.sampled_from([["reopen"], ["snapshot"]]), st.lists(op, max_size=14)).map(
         lambda t: [["push", t[0]]] + t[1] + [["push", t[0]], ["pull"]] + t[2] + [t[3]] + t[4])
     return st.fixed_dictionaries({"kind": st.sampled_from(["durq", "dusq"]),
-                                  "init": st.one_of(st.none(), st.lists(v, max_size=4)),
+                                  "init": st.one_of(st.none(), st.lists(plain, max_size=4)),
                                   "preload": st.one_of(st.none(), st.none(), st.lists(v, min_size=1, max_size=5)),
-                                  "ops": st.one_of(plain, seeded, seeded)})
+                                  "ops": st.one_of(hist, seeded, seeded)})
 
 
 def _dusq_remove_strategy():
     """Dusq histories dense in pull / remove / push over a well filled set (value-indexed removal after FIFO pulls)."""
-    v = st.integers(0, 3)
+    _plain, v = _values()
     op = st.one_of(st.tuples(st.just("pull")), st.tuples(st.just("remove"), v), st.tuples(st.just("remove"), v),
-                   st.tuples(st.just("push"), v), st.tuples(st.just("push"), v), st.tuples(st.just("many"), st.lists(v, max_size=4)),
+                   st.tuples(st.just("push"), v), st.tuples(st.just("push"), v), _many(v),
                    st.tuples(st.just("reopen")), st.tuples(st.just("resync")), st.tuples(st.just("snapshot")),
                    st.tuples(st.just("clear"))).map(list)
     return st.fixed_dictionaries({"kind": st.just("dusq"),
